@@ -321,6 +321,37 @@ if PROP == "C16":
     except Exception as e:
         leg.violation("outermost-first-after-glue-module", f"extract_outermost as first extraction after a glue module appeared raised {e!r}")
     sys.modules.pop("zz_c16_glue", None); gg.close()
+    # (g) no frame at all: extract_outermost raises the RECORDED error if there is one (also for an item that cannot be printed),
+    #     a RuntimeError otherwise; extract() of the same item reports the same error
+    class Frameless:
+        def __init__(s, fail, printable): s.fail, s.printable = fail, printable
+        def __repr__(s):
+            if not s.printable: raise KeyError("this item cannot be printed")
+            return "<Frameless>"
+    class HookFault(Exception): pass
+    @stackscope.unwrap_stackitem.register(Frameless)
+    def _uw_frameless(x):
+        if x.fail: raise HookFault("unwrap failed")
+        return None
+    for fail in (True, False):
+        for printable in (True, False):
+            item = Frameless(fail, printable)
+            key = ("outermost-no-frames", fail, printable)
+            leg.case(key, True)
+            try:
+                stackscope.extract_outermost(item); got = None
+            except BaseException as e:
+                got = e
+            if fail and not isinstance(got, HookFault):
+                leg.violation(key, f"no frames and a recorded unwrap error: extract_outermost raised {got!r} instead of the recorded error")
+            elif not fail and printable and not isinstance(got, RuntimeError):
+                leg.violation(key, f"no frames, no error: extract_outermost raised {got!r} instead of RuntimeError")
+            elif not fail and not printable and got is None:
+                leg.violation(key, "no frames: extract_outermost returned instead of raising")
+            if fail:
+                se = stackscope.extract(item)
+                if se.frames or not isinstance(se.error, HookFault):
+                    leg.violation(key, f"extract() of the same item: frames {se.frames} error {se.error!r}")
     # (e) an elaborate_frame hook REDIRECTS to suspended generator-like objects (single item and a sequence of items, replace
     #     and insert form): the frames found inside each of them have it as origin, and every origin recovers its frame
     async def job_leaf(): await trap()
